@@ -108,6 +108,8 @@ func runHistory(r *core.Run, cid string, L int) {
 			return
 		}
 	}
+	// ... with one transaction that transfers twice to ONE destination
+	l.batchV(true)
 	// every history closes with a few more duplicate deliveries (half of the receives by the relayer that delivered first)
 	for k := 0; k < 4; k++ {
 		l.duplicate()
@@ -362,7 +364,9 @@ func (l *ledger) ackPkt(p *pkt.Pkt) {
 // batch: one EVM transaction (a small router contract) makes two cross-chain transfers of the native coin to two different
 // destinations. Every PacketSent log of a successful transaction stands for escrowed value: it must be backed by a
 // stored commitment (only then is the value "in flight" and can be delivered or refunded).
-func (l *ledger) batch() {
+func (l *ledger) batch() { l.batchV(false) }
+
+func (l *ledger) batchV(forceSame bool) {
 	s := l.s
 	nat := s.Tokens[len(s.Tokens)-1]
 	if nat.Addr != core.ZeroAddr {
@@ -377,6 +381,12 @@ func (l *ledger) batch() {
 	}
 	if len(dsts) < 2 {
 		return
+	}
+	// ... or, one time in three, both to the SAME destination (the contract numbers both with one sequence: such a
+	// transaction is refused today; if it ever goes through, each of its transfers needs a commitment of its own)
+	same := s.Rng.Intn(3) == 0 || forceSame
+	if same {
+		dsts[1] = dsts[0]
 	}
 	amounts := []int64{int64(5 + s.Rng.Intn(40)), int64(5 + s.Rng.Intn(40))}
 	recv := []string{pkt.LowerHex(s.RandUser().Eth), pkt.LowerHex(s.RandUser().Eth)}
@@ -402,17 +412,20 @@ func (l *ledger) batch() {
 		return
 	}
 	o := s.DeliverEth(src, "router: two transfers to two destinations in one transaction", tx)
-	l.r.Count(fmt.Sprintf("batch_sends/ok=%v", o.OK()), 1)
+	l.r.Count(fmt.Sprintf("batch_sends/same-destination=%v/ok=%v", same, o.OK()), 1)
 	if o.OK() {
 		router := &core.Account{Name: "router", Acc: sdk.AccAddress(addr.Bytes()), Eth: addr}
 		sent := core.ParseSent(o.Eth)
 		if len(sent) != 2 {
 			l.r.Violation(l.cid, fmt.Sprintf("batch/successful-transaction-logged-%d-packets-for-2-transfers", len(sent)), map[string]interface{}{"log": s.Log})
 		}
-		for _, sp2 := range sent {
+		for j, sp2 := range sent {
 			i := 0
 			if sp2.Dst == dsts[1].Name {
 				i = 1
+			}
+			if same {
+				i = j % 2
 			}
 			p := s.Register(sp2, pkt.SendSpec{Src: src, Dst: dsts[i], User: router, Receiver: recv[i], Token: nat, Amount: big.NewInt(amounts[i])}, src)
 			stored := src.App.XIBCKeeper.PacketKeeper.GetPacketCommitment(src.Ctx(), p.Src, p.Dst, p.Packet.Sequence)
